@@ -843,6 +843,11 @@ func (a *align) TranslateByReference(phase int, geneticcode int, refseq string) 
 	var code map[string]uint8       // Genetic code
 	var newseqbuffer []bytes.Buffer // The buffers where the temp translated sequences are written
 
+	// The phase is a number of columns to drop: -1 (three phases) has no meaning with a reference sequence
+	if phase < 0 {
+		err = fmt.Errorf("cannot translate by reference with a negative phase (%d)", phase)
+		return
+	}
 	// We take the reference sequence ID from the alignment
 	if refseq == "" {
 		err = fmt.Errorf("given reference sequence is empty")
